@@ -74,7 +74,8 @@ RECURSIVE EveryKth(_, _)
 EveryKth(s, k) == IF s = <<>> THEN <<>> ELSE <<s[1]>> \o (IF Len(s) <= k THEN <<>> ELSE EveryKth(SubSeq(s, k + 1, Len(s)), k))
 Reverse(s) == [i \in 1..Len(s) |-> s[Len(s) - i + 1]]
 \* decimal rendering of a small natural as code points; Debug of the iterator is `<Enum>Iter { len: <remaining> }`
-DecStr(n) == IF n < 10 THEN <<48 + n>> ELSE <<48 + (n \div 10), 48 + (n % 10)>>
+RECURSIVE DecStr(_)
+DecStr(n) == IF n < 10 THEN <<48 + n>> ELSE DecStr(n \div 10) \o <<48 + (n % 10)>>
 DebugOf(rem) == E.namecp \o <<73, 116, 101, 114, 32, 123, 32, 108, 101, 110, 58, 32>> \o DecStr(rem) \o <<32, 125>>
 TObs == /\ IsEvent("itobs")
         /\ LET e == Rec[l] IN
@@ -86,6 +87,11 @@ TObs == /\ IsEvent("itobs")
                               [] e.call = "rev" -> Reverse(rem)
                               [] e.call = "step_by" -> EveryKth(rem, n)
                               [] e.call = "debug" -> DebugOf(Len(rem))
+                              \* consumers every Iterator has: provided or specialised, they describe the same remaining list
+                              [] e.call = "count" -> <<Len(rem)>>
+                              [] e.call = "last" -> IF rem = <<>> THEN <<>> ELSE <<rem[Len(rem)]>>
+                              [] e.call = "fold" -> rem
+                              [] e.call = "rfold" -> Reverse(rem)
                     detail == [def |-> E.id, prof |-> e.prof, handle |-> e.h, arg |-> IF e.big THEN "big" ELSE ToString(e.n),
                                observed |-> e.items, panic |-> e.panic, expected |-> want]
                 \* the adapters follow from the iterator contract (C05); the Debug rendering is demanded by no property
